@@ -63,13 +63,18 @@ def bc_objects(obj, path='o'):
     return out
 
 
-def setup(rng, cls, nmax, geo=None):
+def setup(rng, cls, nmax, geo=None, per=False):
     gfam, gopts = gen.geo_opts(rng, geo)
     faces, meta = gen.gen_grid(rng, cls, nmin=1 if not geo else 2, nmax=nmax, family=gfam, opts=gopts)
     g = Geom(cls, faces)
     m = gen.build_mesh(pf, cls, faces)
+    paxes = ()
+    if per:
+        # periodic axes (any non-radial axis, whatever its end cells look like: purity is asked of every accepted request)
+        capable = [k for k in range(g.nd) if gen.periodic_ok(cls, k)]
+        paxes = [k for k in capable if rng.random() < 0.5] or capable[:1]
     for _ in range(50):
-        spec = gen.gen_bc_spec(rng, g, lams=(1.0, -1.0, 2.5))
+        spec = gen.gen_bc_spec(rng, g, periodic_axes=paxes, lams=(1.0, -1.0, 2.5))
         if gen.bc_nonsingular(g, spec):
             break
     return faces, meta, g, m, spec
@@ -87,6 +92,11 @@ FUNCS = ['diffusionTerm', 'convectionTerm', 'convectionUpwindTerm', 'convectionU
 PHI_FUNCS = ['convectionTVDupwindRHSTerm', 'linearSourceTerm', 'constantSourceTerm', 'transientTerm:scalar', 'transientTerm:ndarray', 'transientTerm:cellvar',
              'gradientTerm', 'gradientTermFixedBC', 'linearMean', 'arithmeticMean', 'geometricMean', 'harmonicMean', 'upwindMean', 'solveExplicitPDE',
              'domainIntegral', 'plotprofile', 'copy', 'celleval']
+
+
+# functions through which boundary conditions act: also exercised with periodic axes
+PER_FUNCS = ['boundaryConditionsTerm', 'cellValuesWithBoundaries', 'BoundaryConditions', 'CellVariable+BC', 'solveMatrixPDE', 'solveExplicitPDE', 'solvePDE',
+             'copy', 'gradientTerm', 'upwindMean', 'linearMean', 'convectionTVDupwindRHSTerm', 'plotprofile', 'domainIntegral']
 
 
 SRC_OF = {}      # id(variable) -> the variable it was updated from (dirty == 'updated')
@@ -205,11 +215,14 @@ def run_case(case):
     cls = case['cls']
     cov, bad = {}, []
     nmax = case.get('nmax', 4 if NDIM[cls] < 3 else 3)
-    faces, meta, g, m, spec = setup(rng, cls, nmax, case.get('geo'))
+    faces, meta, g, m, spec = setup(rng, cls, nmax, case.get('geo'), case.get('per', False))
     if case.get('geo'):
         cov['geo:' + case['geo']] = 1
+    if spec['periodic']:
+        cov['periodic_cases'] = 1
+    mesh0 = snapshot([m])        # the grid as built: nothing that happens in this case (set-up of variables included) may change it
     kind = case['kind']
-    key = '%s/%s/%s/%s/%s' % (cls, meta['n'], case.get('func', kind), case.get('dirty'), case.get('geo'))
+    key = '%s/%s/%s/%s/%s%s' % (cls, meta['n'], case.get('func', kind), case.get('dirty'), case.get('geo'), '/per' if case.get('per') else '')
     sample = {'grid': gen.describe_grid(meta, faces), 'kind': kind, 'function': case.get('func')}
     with np.errstate(all='ignore'):
         if kind == 'call':
@@ -370,6 +383,11 @@ def run_case(case):
         else:
             raise KeyError(kind)
     cov['cls:' + cls] = 1
+    gchanged = diff_snap(mesh0, snapshot([m]))
+    cov['grid_digests_whole_case'] = 1
+    if gchanged:
+        bad.append(('grid-modified', 'the grid of %s is not what it was when built, after the calls of this case (variables with these BCs constructed, %s called): %s' % (
+            cls, case.get('func', kind), gchanged[:4])))
     if bad:
         return {'verdict': 'violated', 'mech': '%s/%s' % (case.get('func', kind), bad[0][0]), 'key': key, 'cov': cov, 'nontrivial': True,
                 'msg': '; '.join(b[1] for b in bad)[:700], 'witness': {'cls': cls, 'faces': [to_list(f) for f in faces], 'case': case}, 'sample': sample}
@@ -395,9 +413,16 @@ def plan(tier, seed):
                     for geo in ('nano', 'int'):       # badly scaled systems / special geometries must not tempt a function into touching its inputs
                         cases.append({'cls': cls, 'kind': 'call', 'func': fn, 'geo': geo, 'seed': [seed, 15, ci, i]})
                         i += 1
+                if fn in PER_FUNCS and gen.periodic_ok(cls, NDIM[cls] - 1):
+                    for r2 in range(2):
+                        cases.append({'cls': cls, 'kind': 'call', 'func': fn, 'per': True, 'seed': [seed, 15, ci, i]})
+                        i += 1
             for r2 in range(3):
                 cases.append({'cls': cls, 'kind': 'reuse', 'seed': [seed, 15, ci, i]})
                 i += 1
+                if r2 == 0 and gen.periodic_ok(cls, NDIM[cls] - 1):
+                    cases.append({'cls': cls, 'kind': 'reuse', 'per': True, 'seed': [seed, 15, ci, i]})
+                    i += 1
             for r2 in range(2):
                 cases.append({'cls': cls, 'kind': 'solver-leak', 'seed': [seed, 15, ci, i]})
                 i += 1
